@@ -144,12 +144,12 @@ theorem processBlocks_frame (env : Env) (s : State) (blobs : List String) (s1 : 
         have := ih s' h
         simp_all
 
-theorem insertNextHeaders_syncing (env : Env) (s : State) (raws : List String) (s1 : State)
-    (h : insertNextHeaders env s raws = some s1) : s1.syncing = s.syncing := by
+theorem insertNextHeadersAll_syncing (env : Env) (s : State) (raws : List String) (s1 : State)
+    (h : insertNextHeadersAll env s raws = some s1) : s1.syncing = s.syncing := by
   induction raws generalizing s with
-  | nil => simp [insertNextHeaders] at h; rw [h]
+  | nil => simp [insertNextHeadersAll] at h; rw [h]
   | cons raw rest ih =>
-    unfold insertNextHeaders at h
+    unfold insertNextHeadersAll at h
     split at h
     · cases h; rfl
     · split at h
@@ -163,6 +163,10 @@ theorem insertNextHeaders_syncing (env : Env) (s : State) (raws : List String) (
             · cases h; rfl
             · have := ih _ h
               exact this
+
+theorem insertNextHeaders_syncing (env : Env) (s : State) (raws : List String) (s1 : State)
+    (h : insertNextHeaders env s raws = some s1) : s1.syncing = s.syncing :=
+  insertNextHeadersAll_syncing env s _ s1 h
 
 theorem feePercentiles_syncing {s s' : State} {n : Nat} {p : List Nat}
     (h : s.feePercentiles n = some (s', p)) : s'.syncing = s.syncing := by
@@ -595,13 +599,13 @@ theorem feePercentiles_eq {s s' : State} {n : Nat} {p : List Nat}
     · exact hr _ _ h
   · exact hr _ _ h
 
-theorem insertNextHeaders_tree (env : Env) (s : State) (raws : List String) (s1 : State)
-    (h : insertNextHeaders env s raws = some s1) :
+theorem insertNextHeadersAll_tree (env : Env) (s : State) (raws : List String) (s1 : State)
+    (h : insertNextHeadersAll env s raws = some s1) :
     s1.unstable.tree = s.unstable.tree ∧ s1.utxos = s.utxos := by
   induction raws generalizing s with
-  | nil => simp [insertNextHeaders] at h; rw [h]; exact ⟨rfl, rfl⟩
+  | nil => simp [insertNextHeadersAll] at h; rw [h]; exact ⟨rfl, rfl⟩
   | cons raw rest ih =>
-    unfold insertNextHeaders at h
+    unfold insertNextHeadersAll at h
     split at h
     · cases h; exact ⟨rfl, rfl⟩
     · split at h
@@ -621,5 +625,10 @@ theorem insertNextHeaders_tree (env : Env) (s : State) (raws : List String) (s1 
               · cases hu
               · cases hu
                 exact this
+
+theorem insertNextHeaders_tree (env : Env) (s : State) (raws : List String) (s1 : State)
+    (h : insertNextHeaders env s raws = some s1) :
+    s1.unstable.tree = s.unstable.tree ∧ s1.utxos = s.utxos :=
+  insertNextHeadersAll_tree env s _ s1 h
 
 end Btc.Lemmas.Fetch
